@@ -10,7 +10,9 @@ ENGINES = [
   'kind_free_text': 'explicit-state exploration: enumerates every grammar inside stated bounds, injects it into a compiled instantiation of the real ctpg::parser, compares the LR(1) automaton the real analyzer builds with a reference canonical LR(1) automaton state by state, then runs the real parse() on every string up to a length bound against a reference driver'},
   {'name': 'E-RX', 'path': 'engines/rx_main.cpp', 'serves_properties': ['C03', 'C04', 'C10', 'C12', 'C17'],
   'kind_free_text': 'explicit-state exploration: enumerates pattern ASTs / term sets / pattern strings inside stated bounds, drives the real regex front-end, dfa_builder and lexer loop, and explores the emitted automaton together with a reference automaton (reachable state pairs x all 256 bytes)'},
-  {'name': 'E-IN/E-CT', 'path': 'progs/', 'serves_properties': ['C06', 'C07', 'C12', 'C13', 'C14', 'C19'],
+  {'name': 'E-SCALE', 'path': 'engines/scale_main.hpp', 'serves_properties': ['C01', 'C05', 'C08', 'C09', 'C11', 'C12'],
+  'kind_free_text': 'generated DSL parsers (gen/scale_gen.py) for grammar families at sizes the injection frames cannot reach (62-200 terminals, 254-300 rules, 64-130 nonterminals, right sides of 10-66 symbols, precedence values up to INT_MIN/INT_MAX); per instance every state, table cell and diagnostics line is compared with a dynamically sized reference LR(1) (ref/lr1_dyn.hpp) and every input of a bounded set is parsed against the documented driver; sizes are sampled (one-dimensional sweep), the comparison inside an instance is exhaustive'},
+ {'name': 'E-IN/E-CT', 'path': 'progs/', 'serves_properties': ['C06', 'C07', 'C12', 'C13', 'C14', 'C19'],
   'kind_free_text': 'compiled black-box programs (no guard, no private access) that enumerate a finite configuration x input space completely and check invariants on every execution; built with g++ and clang++'},
   {'name': 'E-SCHED', 'path': 'progs/c15_sched.cpp', 'serves_properties': ['C15'],
   'kind_free_text': 'history enumerator (one forked process per call sequence, mprotect-ed parser object, image comparison) and hand-written preemption-bounded scheduler over real threads with scheduling points in the user-supplied seams; ThreadSanitizer build for the free-running side condition'},
@@ -19,37 +21,37 @@ ENGINES = [
 # id -> (technique, level text, level note, design section)
 CHECKS = {
  'C01': ('exhaustive enumeration of grammars x input strings within bounds, real parser vs reference LR(1) automaton and CFG membership',
-         'Bounded exhaustive model checking: every grammar with <=4 rules / <=5 right-side symbols (and 5-6 short rules) over 2 nonterminals and 2-3 terminals, ~750 seed grammars (textbook shapes in every rule order) each with all one-symbol variants, every string up to length 4-5 plus inputs with whitespace/newlines/foreign bytes; a table that differs from canonical LR(1) widens the string bound to 7; a watchdog turns a non-returning real call into a violation; DSL conformance replays bind the injected frames to what users compile.',
+         'Bounded exhaustive model checking: every grammar with <=4 rules / <=5 right-side symbols (and 5-6 short rules) over 2 nonterminals and 2-3 terminals, ~750 seed grammars (textbook shapes in every rule order) each with all one-symbol variants, every string up to length 4-5 plus inputs with whitespace/newlines/foreign bytes; a table that differs from canonical LR(1) widens the string bound to 7; a watchdog turns a non-returning real call into a violation; DSL conformance replays bind the injected frames to what users compile. Also: lifted frames (the same enumeration with every symbol index shifted across the 64/128-bit word boundaries of the library bitsets by unused filler symbols) and E-SCALE families (up to 200 terminals / 300 rules / 130 nonterminals / 66-symbol rules; sizes sampled, each instance compared completely).',
          'Trusted: the reference LR(1)/CFG models in /verif/ref (cross-checked against each other on every case) and the injection frame (grammar_info overwritten at run time, everything else is the real code).', '3 C01'),
  'C02': ('exhaustive enumeration of grammars x accepted inputs, functor-call log vs reference derivation tree',
-         'Bounded exhaustive model checking of the value stack discipline: for every accepted input of every LR(1) grammar in the bounds the tree built by the real reductions equals the derivation tree, each value produced once and consumed once; plus a compiled program (rules without functor with 0-3 children of distinct types, typed term, helper functors, functors whose result type merely converts to the left side\'s type) on every input up to length 4-6 against an independent evaluator, and a deep right-recursion sweep to 70001 tokens.',
+         'Bounded exhaustive model checking of the value stack discipline: for every accepted input of every LR(1) grammar in the bounds the tree built by the real reductions equals the derivation tree, each value produced once and consumed once; plus a compiled program (rules without functor with 0-3 children of distinct types, typed term, helper functors, functors whose result type merely converts to the left side\'s type) on every input up to length 4-6 against an independent evaluator, and a deep right-recursion sweep to 70001 tokens. Also lifted frames (indices across the bitset word boundaries) and left-side types with initializer_list constructors.',
          'Uniform value type in the frames (term_value<int>); default functors, typed/custom terms and helper functors are decided by the compiled-program checks.', '3 C02'),
  'C09': ('exhaustive enumeration of grammars x inputs, captured error stream vs reference driver',
-         'Bounded exhaustive model checking of the failure path: every rejected input of every LR(1) grammar in the bounds (also with whitespace, newlines and foreign bytes) yields exactly one report naming the first offending term/byte and its position; accepted inputs are silent; plus a compiled grammar covering the name of every term kind.',
+         'Bounded exhaustive model checking of the failure path: every rejected input of every LR(1) grammar in the bounds (also with whitespace, newlines and foreign bytes) yields exactly one report naming the first offending term/byte and its position; accepted inputs are silent; plus a compiled grammar covering the name of every term kind. Also lifted frames, E-SCALE families, and term names that are long (42-70 characters) or contain formatting characters.',
          'Single-character terms on one line; multi-line positions belong to C10, lexical errors to C04.', '3 C09'),
  'C11': ('exhaustive enumeration of grammars, diagnostic text vs dumped parse table vs reference LR(1) automaton (state isomorphism)',
-         'Bounded exhaustive model checking over grammar space including S/R (both preferences, via precedence assignments), R/R, accept/reduce and error-rule grammars: text == table the parser executes, conflict lines iff reference conflicts (R/R line wherever two reductions compete), rule and side named correctly.',
+         'Bounded exhaustive model checking over grammar space including S/R (both preferences, via precedence assignments), R/R, accept/reduce and error-rule grammars: text == table the parser executes, conflict lines iff reference conflicts (R/R line wherever two reductions compete), rule and side named correctly. Also lifted frames and E-SCALE families (conflicts involving rule numbers 252..299, 130 nonterminals, 200 terminals): complete diagnostics text regenerated from the dynamic reference.',
          'Item sets are identified with canonical LR(1) item sets; cells whose behaviour is documented as undefined (R/R) are judged only on the presence of a conflict line.', '3 C11'),
  'C16': ('exhaustive enumeration of grammars x inputs x call forms; verbose trace replayed against the dumped table and the functor log',
-         'Bounded exhaustive model checking: five call forms per input must agree on result and functor log; the verbose text must be a legal, complete run of the real table that announces exactly the functor calls made, its REGEX MATCH lines a walk of the dumped lexer table, every position prefix the true line/column (inputs with whitespace and newlines included).',
+         'Bounded exhaustive model checking: five call forms per input must agree on result and functor log; the verbose text must be a legal, complete run of the real table that announces exactly the functor calls made, its REGEX MATCH lines a walk of the dumped lexer table, every position prefix the true line/column (inputs with whitespace and newlines included). Also lifted frames and long discard runs (40 terms) in the trace.',
          'Lexer trace lines (REGEX MATCH) are not interpreted here.', '3 C16'),
  'C08': ('exhaustive enumeration of error-rule grammars x inputs, real recovery vs the documented recovery procedure on the reference table',
-         'Bounded exhaustive model checking of error recovery: every conflict-free grammar of the error-rule frames (2-3 terminals), every string up to the bound (errors at every depth relative to the states accepting error, first/last token, end of input, consecutive); plus 4 compiled grammars (README, two nesting levels, no_type-valued typed term, custom lexer) on every input up to length 5-7.',
+         'Bounded exhaustive model checking of error recovery: every conflict-free grammar of the error-rule frames (2-3 terminals), every string up to the bound (errors at every depth relative to the states accepting error, first/last token, end of input, consecutive); plus 4 compiled grammars (README, two nesting levels, no_type-valued typed term, custom lexer) on every input up to length 5-7. Also lifted error-rule frames, long discard runs (40 terms), E-SCALE recovery families with 63-200 terminals, and one-dimensional depth sweeps (stack depth 1..70000, thorough 300000) with the error placed so that 0, 1 or 2 states are popped.',
          'The documented procedure is formalised in ref::drive; "action on error" includes reductions on the error lookahead.', '3 C08'),
  'C05': ('exhaustive enumeration of S/R grammars x precedence/associativity assignments, resolved table and tree shapes vs documented rule',
-         'Bounded exhaustive model checking: all grammars in the bounds with a shift/reduce cell, all assignments of precedence levels and associativities to the terms involved and explicit rule precedences; table compared cell by cell, then all strings parsed and grouping compared.',
+         'Bounded exhaustive model checking: all grammars in the bounds with a shift/reduce cell, all assignments of precedence levels and associativities to the terms involved and explicit rule precedences; table compared cell by cell, then all strings parsed and grouping compared. Also lifted frames, and E-SCALE families with 9 precedence levels and with precedence values at INT_MIN, +-2^15, 2^16, INT_MAX.',
          'rule[0] is indistinguishable from "no explicit precedence" in the API and is not explored.', '3 C05'),
  'C18': ('stateless exploration of every script of custom-lexer answers (environment-answer enumeration by choice-sequence replay) x grammars x inputs, against the documented driver',
          'Bounded exhaustive model checking: the lexer is the environment; every answer sequence within range is enumerated depth-first for every conflict-free grammar of the custom-lexer frames and every input up to the bound.',
          'Answers outside the stated contract (index >= number of terms, length > remaining input, length 0) are not generated.', '3 C18'),
  'C03': ('exhaustive enumeration of pattern ASTs; product-automaton reachability of the emitted DFA against a reference DFA over all 256 bytes',
-         'Bounded exhaustive model checking over pattern space (AST node bound) with an unbounded verdict over input space: language equality is decided on the automata, so strings of every length are covered for each explored pattern.',
+         'Bounded exhaustive model checking over pattern space (AST node bound) with an unbounded verdict over input space: language equality is decided on the automata, so strings of every length are covered for each explored pattern. Plus a one-dimensional sweep of two-, three- and four-digit repetition counts (13..1000) on six pattern shapes.',
          'Broad genuine defect (in-place merge is not a determinisation): affected patterns are listed instance by instance in known/C03_instances.txt; any other failing pattern is a violation.', '3 C03'),
  'C04': ('exhaustive enumeration of ordered term sets x inputs x whitespace options; merged lexer automaton vs product of per-term reference automata; real parse vs reference tokenizer',
-         'Bounded exhaustive model checking: term sets up to size 2-3 from a fixed pool, inputs up to length 4-5, three option combinations; the automaton-level comparison covers prefixes of every length.',
+         'Bounded exhaustive model checking: term sets up to size 2-3 from a fixed pool, inputs up to length 4-5, three option combinations; the automaton-level comparison covers prefixes of every length. Plus ordered term sets of size 4..6 from a pool of mutually overlapping terms (six-slot lexer frame) and a one-dimensional sweep of lexeme lengths 255..200000.',
          'Term sets affected by the regex merge defect are listed in known/C04_instances.txt.', '3 C04'),
  'C10': ('exhaustive enumeration of inputs x whitespace options over multi-line lexeme term sets, positions vs an independent position calculator and the documented driver',
-         'Bounded exhaustive model checking over input space (length <=5 quick, <=7 thorough, 7-byte alphabet incl. tab, CR, LF) for 3 term sets x 2 grammars (one with error recovery).',
+         'Bounded exhaustive model checking over input space (length <=5 quick, <=7 thorough, 7-byte alphabet incl. tab, CR, LF) for 5 term sets x 2 grammars (one with error recovery). Plus a one-dimensional sweep of lines and columns around 2^8, 2^16, 2^17 (whitespace runs, newline runs, long and multi-line lexemes, 10^5 terms on one line).',
          'Uses the lexer frame (a compiled parser whose lexer table is rebuilt at run time through the library\'s own builder calls).', '3 C10'),
  'C17': ('exhaustive enumeration of all strings up to a length bound as patterns; three-valued reference classifier; checked buffer for reads past the end',
          'Bounded exhaustive model checking over pattern-string space: every string up to length 4 (quick) / 5 over 21 symbols, up to 6-7 over set and metacharacter alphabets; plus a compiled program constructing parsers that mention undeclared symbols in every position kind.',
@@ -58,10 +60,10 @@ CHECKS = {
          'Bounded exhaustive model checking: (1) every LR(1) grammar of the E-GRAM bounds x every string up to length 4-5 through a checked user buffer and cstring_buffer<N>; (2) 3 compiled grammars x every byte string up to length 3-4 over 8-9 bytes incl. NUL/0x80/0xff/whitespace x 4 buffer kinds x 3 option sets under ASan+UBSan; (3) regex::expr::match x every string up to length 4-6; termination by step horizon. Depth sweeps to 1e5 are a one-dimensional sample.',
          'Sanitizer build uses clang++ (g++ 12 cannot constant-evaluate the header under -fsanitize=null). "Very long or deeply nested input" is only sampled.', '3 C06'),
  'C12': ('exhaustive enumeration: predicted vs real automaton sizes over pattern/term-set space, default caps over grammar space, fixed stacks over grammar x input space, user limits around the real counts',
-         'Bounded exhaustive model checking of every derived capacity inside the explored spaces of C01/C03/C04, plus 4 grammars x 8 limit values each.',
+         'Bounded exhaustive model checking of every derived capacity inside the explored spaces of C01/C03/C04, plus 4 grammars x 8 limit values each. Plus E-SCALE families built with custom limits that cover the reference automaton, and valid term sets of size 4..6 (a rejected or overrunning construction is a violation).',
          'Stack-capacity formula N+EmptyRulesCount+1 is a recorded known finding (condition-keyed).', '3 C12'),
  'C07': ('exhaustive enumeration of inputs as generated constexpr declarations; per-case constant-expression verdict from g++ and clang++ diagnostics; six-way run-time differential',
-         'Bounded exhaustive exploration: 4 literal-typed grammars x every input up to length 3-4 (quick) / 4-6 (thorough) x 2 compilers; the constant evaluator doubles as a complete undefined-behaviour oracle for the failure paths.',
+         'Bounded exhaustive exploration: 4 literal-typed grammars x every input up to length 3-4 (quick) / 4-6 (thorough) x 2 compilers; the constant evaluator doubles as a complete undefined-behaviour oracle for the failure paths. Plus literals of 100..2049 characters and nesting to 600 for three grammars (one-dimensional sweep).',
          'Results are ints; a context grammar is not included.', '3 C07'),
  'C15': ('explicit enumeration of call histories + stateless preemption-bounded schedule exploration (baton-passing scheduler, choice-sequence replay), read-only parser pages, static-data image comparison; ThreadSanitizer as side condition',
          'Model checking of the real code: all call sequences up to depth 3 (quick) / 4 (thorough) over 14 calls; all schedules with at most 2 preemptions for 12 call pairs on 2 threads; all schedules with at most 1 (quick) / 2 (thorough) preemptions for 6 call triples on 3 threads.',
